@@ -543,7 +543,7 @@ EXPLANATION = (
 )
 ASSUMPTIONS = ['INTEGER context arithmetic is exact for the index range', 'gensym refresh/fresh never returns a reserved name']
 
-REDUCE_HOISTER = Hoister(REDUCE, '_ReduceFusionInstance', 'the fused reduction loop')
+REDUCE_HOISTER = Hoister(REDUCE, '_ReduceFusionInstance', 'the fused reduction loop', extra_positions=('with-header',))
 
 
 # ----------------------------------------------------------------------
@@ -645,6 +645,8 @@ RULES = [
 from ..selftest import Mutant  # noqa: E402
 
 MUTANTS = [
+    Mutant('reduction-hoisted-out-of-a-with-header', REDUCE, "        context = self._visit_expr(stmt.ctx, None)\n", "        context = self._visit_expr(stmt.ctx, ctx)\n", 'C08.S1',
+           'finding F121 before its repair: any([x + y > 2048 for x in xs]) in a with header is rounded under the FP16 around it'),
     Mutant('range-length-read-off-the-literals', UTILS, "    if array_size is None:\n        return None\n    bound = array_size.by_expr.get(iterable)",
            "    if isinstance(iterable, Range3) and all(isinstance(a, Integer) for a in (iterable.first, iterable.second, iterable.third)) and iterable.third.val > 0:\n        return max(0, (iterable.second.val - iterable.first.val) // iterable.third.val)\n    if array_size is None:\n        return None\n    bound = array_size.by_expr.get(iterable)", 'C08.P1',
            'seeded change C08e: range(0, 5, 2) is taken to have two elements'),
